@@ -72,7 +72,7 @@ def plainIdent (cc : Lex.CharClass) (name : String) : Bool :=
 mutual
 /-- `recurse(expr, fmt, prec)` -/
 def display (sz : Nat → Nat → Nat) (plain : String → Bool) : Expr → Prec → String
-  | .unit name, _ => identText plain name
+  | .unit name, _ => if name == "of" then "(of)" else identText plain name
   | .quote s, _ => quoteText s
   | .const v, _ => constText sz v
   | .date _, _ => "NYI: date expr Display"
